@@ -185,6 +185,13 @@ def tb_consts(algo, nu, rho, rounds=None, c=None, delta=None, bound=None, H=48, 
                 # 2*var*c2ls must fit: var <= rmax^2 S
                 if 2 * (rmax * rmax * S + 1) * max(c2ls) >= 2 ** 31 - 1:
                     ok = False
+                # the variance floor 1e-3 must be resolved to 1/16 (8 units): the tolerance of the Bernstein width
+                # (TolU in Trace_TreeBandit) is derived for that resolution; coarser scales are "not representable"
+                if fxr(Decimal("0.001"), S) < 8:
+                    ok = False
+                # second moments: sum of squares (units 1/RU^2) times S must stay below 2^31
+                if maxcnt * (rmax * RU) ** 2 * S >= 2 ** 31 - 1:
+                    ok = False
                 tabs.update({"c2ls": c2ls, "b3": b3, "vmin": fxr(Decimal("0.001"), S), "nb": [fxr(3 * D(bound) * nu * dpow(rho, h), S) for h in range(H + 1)], "tauy": tauy, "sexp": Sexp})
         if ok:
             out.update(tabs)
